@@ -92,11 +92,65 @@ def check(R):
             if op:
                 R.expect('P6', b.fn, 'a command cannot be repeated: op is among the flags that must be absent', op & absn == op, f'op={op:#x} absent={absn:#x}', f'op={op:#x} is not within absent={absn:#x}', b.where(t.bb))
                 af = b.calls(FS + '::add_flags')
-                R.floor(f'add_flags in {m}', len(af), 1)
-                rec = _flag_value(F, b, af[0].d['a'][1])
+                flag_arg = af[0].d['a'][1] if af else None
+                if not af:
+                    # the flag may be recorded by a private helper of FailSafe that is handed the flag (it calls add_flags / writes ctx.flags)
+                    for t_ in b.calls():
+                        cal_ = t_.d.get('r') or t_.d.get('f', '')
+                        hb = F.bodies.get(cal_)
+                        if hb is not None and cal_.startswith(FS + '::') and (FS + '::add_flags' in hb.calls_summary or 'flags:failsafe::ArmedCtx' in hb.fw_summary
+                                                                                   or any('BitOrAssign for failsafe::NocFlags' in c_ for c_ in hb.calls_summary)):
+                            cands = [a_ for a_ in t_.d['a'][1:] if _flag_value(F, b, a_) is not None]
+                            if cands:
+                                af, flag_arg = [t_], cands[-1]
+                                break
+                R.floor(f'flag recorded (add_flags) in {m}', len(af), 1)
+                rec = _flag_value(F, b, flag_arg)
                 R.expect('P6', b.fn, 'the flag recorded is the flag that was checked', rec == op, f'add_flags({rec:#x}) == op', f'add_flags({rec}) but op={op:#x}', b.where(af[0].bb))
                 bad = prims.always_followed_by(b, [b.calls('fabric::Fabrics::add', 'fabric::Fabrics::update')[0].bb] if m in ('add_noc', 'update_noc') else [t.bb], [af[0].bb],
                                                exits=[x for x in ok_return_bbs(b)] or None) if False else []
+        # the upfront gate of every fail-safe-only command (with_armed_failsafe: the Network Commissioning commands have no other check)
+        # admits only the session context the fail-safe was armed by: check_armed's Ok is check_state's Ok
+        ca = R.body(FS + '::check_armed')
+        rd_ca = prims.result_defs(ca)
+        if rd_ca and all(k == 'call' and (pl_.get('r') or pl_.get('f')) == FS + '::check_state' for bb, k, pl_ in rd_ca):
+            R.ok('P2', ca.fn, 'answer Ok cut-by check_state ok (armed, same session context)', 'the result is check_state(..) itself')
+        else:
+            R.cut('P2', ca, 'answer Ok', ok_return_bbs(ca), 'check_state ok (armed, same session context)', lambda: R.call_guard(ca, FS + '::check_state'))
+        waf = [b_ for b_ in F.bodies.values() if b_.focus and 'with_armed_failsafe_ex' in b_.fn and FS + '::check_armed' in b_.calls_summary]
+        R.floor('with_armed_failsafe_ex calling check_armed', len(waf), 1)
+        # the armed context is (re)bound to the fabric the NOC command installed - unconditionally: roll-back (expire), the persist deferral
+        # (is_armed_for) and CommissioningComplete all act on ctx.fab_idx. A fail-safe armed over CASE of fabric A that then adds fabric B
+        # must roll back B, not A.
+        FI = 'fab_idx:failsafe::ArmedCtx'
+
+        def must_write(fn, depth=2):
+            hb = F.bodies.get(fn)
+            if hb is None or depth < 0:
+                return False
+            wr = {i for i, j, st in hb.stmts() if any(isinstance(x, str) and x == '.' + FI for x in st[0][1:]) and not hb.is_cleanup(i)}
+            for t_ in hb.calls():
+                c_ = t_.d.get('r') or t_.d.get('f', '')
+                if c_.startswith(FS + '::') and c_ != fn and must_write(c_, depth - 1):
+                    wr.add(t_.bb)
+            return bool(wr) and not (set(hb.ret_blocks()) & prims.reach(hb, (0,), cut_blocks=wr))
+        for m, inst in (('add_noc', 'fabric::Fabrics::add'), ('update_noc', 'fabric::Fabrics::update')):
+            b = R.body(FS + '::' + m)
+            wr = {i for i, j, st in b.stmts() if any(isinstance(x, str) and x == '.' + FI for x in st[0][1:]) and not b.is_cleanup(i)}
+            for t_ in b.calls():
+                c_ = t_.d.get('r') or t_.d.get('f', '')
+                if c_.startswith(FS + '::') and must_write(c_):
+                    wr.add(t_.bb)
+            it = b.calls(inst)
+            R.floor(f'{inst.split("::")[-1]} in {m}', len(it), 1)
+            succ_ = prims.track_result(F, b, it[0]).success
+            r_ = set()
+            for (frm, to) in succ_:
+                r_ |= prims.reach(b, (to,), cut_blocks=wr)
+            bad_ = sorted(set(ok_return_bbs(b)) & r_)
+            R.expect('P3', b.fn, f'after the fabric was installed, every successful {m} has bound the armed context to it (ctx.fab_idx written on every path)', bool(wr) and not bad_,
+                     'ctx.fab_idx = fabric.fab_idx() on every path', f'Ok at {[b.where(x) for x in bad_]} is reachable without (unconditionally) writing ctx.fab_idx: a fail-safe armed over another fabric\'s CASE session keeps '
+                     'pointing at that fabric - its expiry rolls back the wrong fabric and the new one stays', b.where(it[0].bb))
         if 'add_noc' in table:
             p, a, o = table['add_noc']
             R.expect('P6', FS + '::add_noc', 'AddNOC requires the root certificate and an AddNOC CSR', p == c['ADD_ROOT_CERT_RECVD'] | c['ADD_CSR_REQ_RECVD'], hex(p), hex(p))
